@@ -268,6 +268,15 @@ def http_part(ctx):
         elif c < 0.6:
             raw = bytes(r.choice(b"\r\n :AGETHP/1.\xff\x00") for _ in range(r.randrange(0, 40)))
         ops.append("httpall\t" + raw.hex())
+    # well-formed messages whose well-known headers carry values at and beyond the edges of their grammars (absurd numbers in dates,
+    # lengths, ports, q-values; non-ASCII digits; NULs; very long tokens): whatever the code does with a standard header, the
+    # outcome is still a result or PacketError
+    for _ in range(ctx.n(3000, 60000)):
+        hs = [(httpgen.case_variant(r, r.choice(httpgen.NAMES)), r.choice(httpgen.VALUES)) for _ in range(r.randrange(0, 4))]
+        for _k in range(r.choice([1, 1, 2, 3])):
+            hs.insert(r.randrange(0, len(hs) + 1), httpgen.hostile_header(r))
+        raw, _p = httpgen.message(r, headers=hs, fold=0.05)
+        ops.append("httpall\t" + raw.hex())
     # long inputs: work must stay proportional
     for k in (10, 100, 400):
         ops.append("httpall\t" + (b"GET / HTTP/1.1\r\n" + b"X: y\r\n" * k + b"\r\n").hex())
